@@ -80,6 +80,11 @@ def run(ctx):
                 o.name = (None if keep_anonymous else o.name or "Anon%d" % i)
             if keep_anonymous:
                 ctx.count("documents_with_anonymous_operation")
+            elif len(doc.operations) > 1 and rng.random() < 0.5:
+                # names that contain one another: the filter selects by equality
+                for i, o in enumerate(doc.operations):
+                    o.name = "Q" * (i + 1)
+                ctx.count("documents_with_nested_operation_names")
             families = [("base", doc, [])]
             for _ in range(2):
                 d2, kinds = wrap_copy(rng, doc, case.ir)
